@@ -83,7 +83,7 @@ CONSTRAINT Bound
 def run(ctx):
     rng = ctx.rng
     np.random.seed(ctx.seed % (2 ** 31))
-    ctx.mc("MC_Moves", MC_CFG.format(ne=2, np=2, depth=3 if ctx.quick else 4, maxops=9 if ctx.quick else 10), tag="2e2p")
+    ctx.mc("MC_Moves", MC_CFG.format(ne=2, np=2, depth=3 if ctx.quick else 4, maxops=9 if ctx.quick else 10), tag="2e2p", coverage=True)
     traces, tid = [], 0
     steps = 60 if ctx.quick else 250
     # evolutionary initial circuits
